@@ -42,7 +42,7 @@ Check C02_partial_history_invariant : forall evs h,
 (* one edit run, however it ends by itself (success, I/O error on any file, stop request at any
    poll): the lock it leaves is above every ID it wrote *)
 Theorem C02_lock_covers_ids : forall rc files lk o,
-  files <> [] -> rc_use_cache rc = true -> o_lock_write_fails o = false ->
+  files <> [] -> rc_use_cache rc = true -> o_lock_fault o = LkOk ->
   ro_exit (edit rc files lk o) <> XPanic -> ro_exit (edit rc files lk o) <> XHang ->
   (ro_ids (edit rc files lk o) = [] /\ w_lock (after rc files lk o) = lk) \/
   exists s c',
@@ -60,7 +60,7 @@ Proof. exact (edit_final_lock the_params find c_START_REFERENCE_ID start_ge_1 st
 Theorem C02_lock_window_refuted :
   let f := utf8_encode [105;110;102;111;33;40;34;98;34;41;59] in
   let rc := mkRunCfg (mkConfig false [([108;111;103], [105;110;102;111])]) true in
-  let o := mkOracle None None (fun _ => false) (fun _ => false) (fun _ => FNone) false in
+  let o := mkOracle None None (fun _ => false) (fun _ => false) (fun _ => FNone) LkOk in
   let out := edit rc [f] (LValid 5) o in
   map id3 (ro_ids out) = [5] /\
   exists k, w_lock (crash_world (world0 [f] (LValid 5)) (ro_effs out) k None) = LValid 5 /\
@@ -70,7 +70,7 @@ Proof. vm_compute. split; [reflexivity|]. exists 5%nat. split; [reflexivity|disc
 Example C02_nonvacuous :
   hinv (mkH [utf8_encode [105;110;102;111;33;40;34;98;34;41;59]] LAbsent []) /\
   let rc := mkRunCfg (mkConfig false [([108;111;103], [105;110;102;111])]) true in
-  let o := mkOracle None None (fun _ => false) (fun _ => false) (fun _ => FNone) false in
+  let o := mkOracle None None (fun _ => false) (fun _ => false) (fun _ => FNone) LkOk in
   let h := mkH [utf8_encode [105;110;102;111;33;40;34;98;34;41;59]] LAbsent [] in
   hist_ok0 h [HEdit rc o; HDev [utf8_encode [105;110;102;111;33;40;34;99;34;41;59]]; HEdit rc o] /\
   h_ghost (hexec0 h [HEdit rc o; HDev [utf8_encode [105;110;102;111;33;40;34;99;34;41;59]]; HEdit rc o]) = [1; 2].
